@@ -117,6 +117,7 @@ def violStr : Viol → String
   | .missingImport n => s!"derive({String.ofList n}) is used unqualified but not imported"
   | .undefinedConst n => s!"constant {String.ofList n} is used but not defined"
   | .headerParseNoFromStr it t => s!"{String.ofList it}: a header member of type {String.ofList t} is built with str::parse, but {String.ofList t} has no FromStr"
+  | .fnShadowsImport f n => s!"{String.ofList f}.rs defines `fn {String.ofList n}` and imports `{String.ofList n}`"
   | .ctorBoxMismatch it v => s!"enum {String.ofList it}: the helper constructor of variant {String.ofList v} and the variant's payload type disagree about Box"
 
 /-- the violations without a class first (they are what makes a verdict a VIOLATION) -/
